@@ -2,7 +2,8 @@
      <id> s<caseseed> k<0|1> n<N> <node>*N : <op>*     (k1: GC keeps the digest references of live descriptors)
    node = <kind 0..5>,<subject|->,<succ.succ...|->  (kind: 0 blob 1 image 2 docker 3 index 4 dockerl 5 artifact)
    op = P<n> T<n>.<t> U<t> D<n> G R(eopen) F(oreign index + reopen) A<0|1> S<id>.<alg 0 sha256 1 sha512 2 sha384 3 other>.<valid>
-        V<0|1> (AutoSaveIndex)  I (SaveIndex)  B<id> (Push of an undecodable manifest)  Ke (GC cancelled before the index is rebuilt)
+        V<0|1> (AutoSaveIndex)  I (SaveIndex)  B<id> (Push of an undecodable manifest)
+        Q<k>:<order> (GC whose sweep fails at entry k of the directory order)  Ke (GC cancelled before the index is rebuilt)
         K<k>:<b<n>|s<id>>,... (GC cancelled in the sweep after k entries of the given directory order)
    Output: <id> then, per op, <op>=<res>/B:..../I:..../P:..../S:..../J:....  (see harness/cmd/c09; J = index.json). *)
 let ints_of sep s = if s = "-" || s = "" then [] else List.map int_of_string (String.split_on_char sep s)
@@ -69,6 +70,14 @@ let () =
             | 'V' -> PAutoSave (arg = "1")
             | 'I' -> PSave
             | 'B' -> PPushBad (nat_of_int (int_of_string arg))
+            | 'Q' ->
+              (match String.split_on_char ':' arg with
+                | [k; ord] ->
+                  let ents = List.map (fun e ->
+                    let v = nat_of_int (int_of_string (String.sub e 1 (String.length e - 1))) in
+                    if e.[0] = 'b' then SBlob v else SStray v) (List.filter (fun x -> x <> "") (String.split_on_char ',' ord)) in
+                  PGCBlocked (ents, nat_of_int (int_of_string k))
+                | _ -> failwith "Q")
             | 'K' ->
               if arg = "e" then PGCCancel (true, [], O)
               else (match String.split_on_char ':' arg with
